@@ -797,11 +797,27 @@ impl<'a> FragFinder<'a> {
         }
         if let Some(rest) = self.spec.strip_prefix("stmts:") {
             let (from, to) = rest.split_once("..").unwrap_or((rest, ""));
+            // `stmts:>prefix..` starts AFTER the statement with that prefix (robust when the first statement of
+            // the range may be reordered by a change)
+            let (from, after) = match from.strip_prefix('>') { Some(f) => (f, true), None => (from, false) };
             let mut start = None;
+            let mut pending_after = false;
             for st in &b.stmts {
                 let (s, e) = rng(st.span());
                 let t = self.src[s..e].trim_start();
-                if start.is_none() && t.starts_with(from) {
+                if pending_after && start.is_none() {
+                    pending_after = false;
+                    start = Some(s);
+                    if to.is_empty() {
+                        let (_, be) = rng(b.brace_token.span.close());
+                        self.found = Some((s, be - 1));
+                        return;
+                    }
+                } else if start.is_none() && after && t.starts_with(from) {
+                    pending_after = true;
+                    continue;
+                }
+                if start.is_none() && !after && t.starts_with(from) {
                     start = Some(s);
                     if to.is_empty() {
                         let (_, be) = rng(b.brace_token.span.close());
